@@ -15,6 +15,12 @@ KEYED = {"choice": "keyed", "randrange": "keyed"}
 LITERAL_PREFIX = "mbx"
 
 
+def is_literal(x):
+    """mailbox ids chosen by the generator ("mbx-appA-0", "mbx1", "other-..."), as opposed to
+    ids drawn by the server (13 characters of a-z2-7: never a '-', '0' or '1')"""
+    return x.startswith(("mbx-", "other-")) or (len(x) == 4 and x.startswith("mbx") and x[3].isdigit())
+
+
 class Obs(object):
     """what a world showed: frames per connection, state after every event"""
 
@@ -57,7 +63,7 @@ class Renamer(object):
         self.map = {}
 
     def id(self, x):
-        if not isinstance(x, str) or x.startswith(LITERAL_PREFIX) or x.startswith("other-"):
+        if not isinstance(x, str) or is_literal(x):
             return x
         if x not in self.map:
             self.map[x] = "M%d" % len(self.map)
@@ -80,7 +86,7 @@ class Renamer(object):
         for n in sorted(d["nameplates"], key=lambda n: (n[0], n[1])):
             n[2] = self.id(n[2])
         for m in d["mailboxes"]:
-            if not (isinstance(m[1], str) and (m[1] in self.map or m[1].startswith(LITERAL_PREFIX))):
+            if not (isinstance(m[1], str) and (m[1] in self.map or is_literal(m[1]))):
                 m[1] = "?"
             else:
                 m[1] = self.id(m[1])
